@@ -5,6 +5,7 @@ package main
 // where <expect> lists the node indices that must have recovered to ACTIVE at the end ("-" = none).
 
 import (
+	"context"
 	"errors"
 	"os"
 	"os/exec"
@@ -534,6 +535,77 @@ func c09FaultCase(seed uint64, caseNo int, dir string) (string, bool) {
 	return c09Line(w, "fault/k"+itoa(caseNo), cfgs, files, init0, "-"), true
 }
 
+// envRemove deletes the entries `ids` from the ring (an operator "forget", a store that lost part of its content).
+func (w *world) envRemove(ids ...string) {
+	cur := w.current()
+	if cur == nil {
+		return
+	}
+	for _, id := range ids {
+		delete(cur.Ingesters, id)
+	}
+	_ = w.inner.CAS(context.Background(), c08Key, func(interface{}) (interface{}, bool, error) { return cur, false, nil })
+	w.tracked = w.encV(cur)
+	w.steps = append(w.steps, strings.Join([]string{"E", "set", w.tracked, "n", strconv.FormatInt(w.vnow, 10), "-", "x", "ok", "-", "-"}, "!"))
+}
+
+// c09WipeOther: the own entry is lost and a handler OTHER than the heartbeat is the first to write afterwards:
+// (0) the ring is wiped between initRing and the join timer; (1) the entry of an ACTIVE lifecycler is removed and
+// ClaimTokensFor runs before the next heartbeat (`Desc.ClaimTokens` then works on a zero-valued entry).
+func c09WipeOther(seed uint64, caseNo int, dir string) (string, bool) {
+	r := newRng(seed, uint64(85000+caseNo))
+	w := newWorld(r)
+	defer w.close()
+	which := caseNo % 2
+	sub := lcfg{kind: 'L', id: "i0", addr: "a0:1", zone: "z1", numTokens: 1 + r.intn(3), observe: r.chance(1, 2), hasFile: r.chance(1, 2),
+		hbTimeout: 61, readinessRing: r.chance(1, 2), registerState: ring.ACTIVE, unregister: true}
+	sc := c09Scen{name: "wipeother", subject: sub}
+	if which == 1 {
+		sc.ring = func(r *rng, used map[uint32]bool, nt int) *ring.Desc {
+			d := ring.NewDesc()
+			used[50], used[52] = true, true
+			d.Ingesters["old"] = ring.InstanceDesc{Id: "old", Addr: "ao:1", State: ring.LEAVING, Timestamp: c08V0 - 2, RegisteredTimestamp: c08V0 - 500, Tokens: []uint32{50, 52}}
+			return d
+		}
+	}
+	files, init0, cfgs := c09Prepare(w, sc, r, dir, caseNo)
+	defer c09Cleanup(w)
+	step := func(ev, arg string) string { w.vnow += 2; return w.fire(0, ev, arg, "n") }
+	expect := "-"
+	if which == 0 {
+		step("init", "s7")
+		if r.chance(1, 2) {
+			step("hb", "-")
+		}
+		w.vnow += 4
+		if r.chance(1, 2) {
+			w.wipe()
+		} else {
+			w.envRemove("i0")
+		}
+		step("join", "-")
+		for t := 0; t < 3 && w.nodes[0].lc.GetState() == ring.JOINING; t++ {
+			step("hb", "-")
+			if step("verify", "-") == "yes" {
+				step("cs", "A")
+			}
+		}
+		step("hb", "-")
+		expect = "0"
+	} else {
+		c09Continue(w, 0, r.chance(1, 2))
+		w.vnow += 4
+		w.envRemove("i0")
+		step("claim", "old")
+		step("hb", "-")
+		step("hb", "-")
+	}
+	if w.bad {
+		return "", false
+	}
+	return c09Line(w, "wipeother/"+[]string{"join", "claim"}[which]+"/k"+itoa(caseNo), cfgs, files, init0, expect), true
+}
+
 // c09TargetedFault: the store rejects exactly the JOINING->ACTIVE write at the end of the observe period, or the
 // ACTIVE->LEAVING write at shutdown; then it accepts writes again and the heartbeat ticker goes on.
 func c09TargetedFault(seed uint64, caseNo int, dir string) (string, bool) {
@@ -665,6 +737,7 @@ func runC09(e *env) {
 	c08Parallel(e, nf, "c09f", c09FaultCase)
 	c08Parallel(e, 80*e.scale, "c09t", c09TargetedFault)
 	c08Parallel(e, 96*e.scale, "c09w", c09WipeObserve)
+	c08Parallel(e, 48*e.scale, "c09x", c09WipeOther)
 	if os.Getenv("VERIF_TIMING") != "" {
 		println("fault streams done", time.Since(t0).String())
 	}
